@@ -45,6 +45,15 @@ class UnsupportedInShim(Unsupported):
 class generic:
     _code: Optional[str] = None
 
+    def __new__(cls, value=0):
+        # np.float32(x), np.int16(x) ...: a scalar of that type
+        if cls._code is None:
+            raise UnsupportedInShim("np.generic()")
+        a = array(value, dtype=dtype(cls))
+        if a.shape != ():
+            raise UnsupportedInShim("scalar type called on a sequence")
+        return a._elem_out(a._idx[0])
+
 
 def _mk_scalar_type(name: str, code: str):
     return type(name, (generic,), {"_code": code})
@@ -879,6 +888,12 @@ class ndarray:
     def ravel(self, order="C") -> "ndarray":
         return ndarray._mk((self.size,), self.dtype, self._buf, list(self._idx), self._writeable)
 
+    def fill(self, value) -> None:
+        self[...] = value
+
+    def squeeze(self, axis=None):
+        return squeeze(self, axis)
+
     def tolist(self):
         if not self.shape:
             return self._elem_out(self._idx[0])
@@ -1457,6 +1472,128 @@ def isfinite(x):
         ex, _ = x._exp_frac
         return mkbool(ex != (1 << ex.size()) - 1)
     return bool(_rnp.isfinite(x))
+
+
+def concatenate(arrays, axis=0, dtype=None):
+    arrs = [asarray(a) for a in arrays]
+    if not arrs:
+        raise ValueError("need at least one array to concatenate")
+    if _b.any(a._structured for a in arrs):
+        if axis != 0 or _b.any(a.dtype != arrs[0].dtype or a.ndim != 1 for a in arrs):
+            raise UnsupportedInShim("concatenate of structured arrays")
+        n = arrs[0].dtype.nleaves
+        buf, idx = [], []
+        for a in arrs:
+            for p in a._idx:
+                idx.append(len(buf))
+                buf.extend(a._buf[p:p + n])
+        return ndarray._mk((len(idx),), arrs[0].dtype, buf, idx)
+    nd = arrs[0].ndim
+    if nd == 0:
+        raise ValueError("zero-dimensional arrays cannot be concatenated")
+    if axis < 0:
+        axis += nd
+    code = arrs[0].dtype.code
+    for a in arrs[1:]:
+        if a.ndim != nd or _b.any(a.shape[k] != arrs[0].shape[k] for k in range(nd) if k != axis):
+            raise ValueError("all the input array dimensions except for the concatenation axis must match exactly")
+        code = _common_code(code, a.dtype.code)
+    if dtype is not None:
+        code = globals()["dtype"](dtype).code
+    shape = list(arrs[0].shape)
+    shape[axis] = sum(a.shape[axis] for a in arrs)
+    outer = _prod(shape[:axis])
+    buf = []
+    for o in range(outer):
+        for a in arrs:
+            inner = _prod(a.shape[axis:])
+            for p in a._idx[o * inner:(o + 1) * inner]:
+                buf.append(to_leaf(_leaf_as_value(a._buf[p], a.dtype.code), code, False))
+    return ndarray._mk(tuple(shape), _scalar_dt(code), buf, list(range(len(buf))))
+
+
+def stack(arrays, axis=0):
+    arrs = [asarray(a) for a in arrays]
+    if not arrs:
+        raise ValueError("need at least one array to stack")
+    if _b.any(a.shape != arrs[0].shape for a in arrs):
+        raise ValueError("all input arrays must have the same shape")
+    nd = arrs[0].ndim + 1
+    if axis < 0:
+        axis += nd
+    exp = [a.reshape(a.shape[:axis] + (1,) + a.shape[axis:]) for a in arrs]
+    return concatenate(exp, axis=axis)
+
+
+def vstack(tup):
+    arrs = [asarray(a) for a in tup]
+    arrs = [a.reshape(1, a.shape[0]) if a.ndim == 1 else (a.reshape(1, 1) if a.ndim == 0 else a) for a in arrs]
+    return concatenate(arrs, axis=0)
+
+
+def hstack(tup):
+    arrs = [asarray(a) for a in tup]
+    arrs = [a.reshape(1) if a.ndim == 0 else a for a in arrs]
+    return concatenate(arrs, axis=0 if arrs[0].ndim == 1 else 1)
+
+
+def column_stack(tup):
+    arrs = [asarray(a) for a in tup]
+    arrs = [a.reshape(a.shape[0], 1) if a.ndim == 1 else a for a in arrs]
+    return concatenate(arrs, axis=1)
+
+
+def zeros_like(a, dtype=None):
+    a = asarray(a)
+    return zeros(a.shape, dtype or a.dtype)
+
+
+def ones_like(a, dtype=None):
+    a = asarray(a)
+    return ones(a.shape, dtype or a.dtype)
+
+
+def empty_like(a, dtype=None):
+    a = asarray(a)
+    return empty(a.shape, dtype or a.dtype)
+
+
+def full_like(a, fill_value, dtype=None):
+    a = asarray(a)
+    return full(a.shape, fill_value, dtype or a.dtype)
+
+
+def arange(*args, dtype=None):
+    vals = list(range(*[_as_index(x) for x in args]))
+    return array(vals, dtype=dtype or "<i8") if vals else zeros((0,), dtype or "<i8")
+
+
+def isinf(x):
+    if isinstance(x, ndarray):
+        if x.dtype.code[0] != "f":
+            vals = [False] * x.size
+        else:
+            w = _fw(x.dtype.code)
+            vals = [(bool(_rnp.isinf(E.bits_to_float(x._buf[p], w))) if isinstance(x._buf[p], int) else mkbool(SFloat(w, x._buf[p]).isinf_e())) for p in x._idx]
+        return ndarray._mk(x.shape, _scalar_dt("b1"), vals, list(range(len(vals))))
+    if isinstance(x, SFloat):
+        return mkbool(x.isinf_e())
+    return bool(_rnp.isinf(x))
+
+
+def copy(a):
+    return asarray(a).copy()
+
+
+def squeeze(a, axis=None):
+    a = asarray(a)
+    if axis is not None:
+        raise UnsupportedInShim("squeeze(axis=)")
+    return a.reshape(tuple(d for d in a.shape if d != 1))
+
+
+def shape(a):
+    return asarray(a).shape
 
 
 def count_nonzero(a, axis=None):
